@@ -8,11 +8,14 @@ usage: tools/mkfindings.py <ID> [survey-root]
 """
 import json, os, sys, glob, shutil
 
-prop = sys.argv[1]
-root = sys.argv[2] if len(sys.argv) > 2 else "/verif"
+norepro = "--norepro" in sys.argv
+args = [a for a in sys.argv[1:] if not a.startswith("--")]
+prop = args[0]
+root = args[1] if len(args) > 1 else "/verif"
 src = os.path.join(root, ".tmp", "survey", prop)
 dst = os.path.join("/verif", "replays", "known", prop)
-os.makedirs(dst, exist_ok=True)
+if "--norepro" not in sys.argv:
+    os.makedirs(dst, exist_ok=True)
 have = set()
 try:
     for l in open("/verif/KNOWN_FINDINGS.txt"):
@@ -28,8 +31,12 @@ for f in sorted(glob.glob(os.path.join(src, "*.json"))):
     if key in have:
         continue
     name = os.path.basename(f)
-    shutil.copy(f, os.path.join(dst, name))
+    if not norepro:
+        shutil.copy(f, os.path.join(dst, name))
     what = r["detail"].split("\n")[0]
     if len(what) > 220:
         what = what[:220] + "..."
-    print("finding: property=%s key=%s repro=replays/known/%s/%s :: %s" % (prop, key, prop, name, what))
+    if norepro:
+        print("finding: property=%s key=%s :: %s" % (prop, key, what))
+    else:
+        print("finding: property=%s key=%s repro=replays/known/%s/%s :: %s" % (prop, key, prop, name, what))
